@@ -909,11 +909,20 @@ func runC05Conc(c *Case, out func(string)) {
 	var failMsg atomic.Value
 	fail := func(m string) { failMsg.CompareAndSwap(nil, m) }
 	isOld := func(k []byte) bool { _, ok := ref[string(k)]; return ok }
+	var seekFrom []byte // when set, checkScan positions with Seek(seekFrom) instead of SeekToFirst
 	checkScan := func(what string, it iterator.Iterator, lo, hi []byte) int {
 		var prev []byte
 		seen := map[string][]byte{}
 		n := 0
-		for it.SeekToFirst(); it.Valid(); it.Next() {
+		if seekFrom != nil {
+			it.Seek(seekFrom)
+			if lo == nil || bytes.Compare(seekFrom, lo) > 0 {
+				lo = seekFrom
+			}
+		} else {
+			it.SeekToFirst()
+		}
+		for ; it.Valid(); it.Next() {
 			k := append([]byte{}, it.Key()...)
 			if prev != nil && bytes.Compare(prev, k) >= 0 {
 				fail(fmt.Sprintf("C05 concurrent %s: %s after %s: not strictly ascending / duplicate", what, render(k), render(prev)))
@@ -983,6 +992,51 @@ func runC05Conc(c *Case, out func(string)) {
 	}
 	stop.Store(true)
 	wg.Wait()
+	// directed interleavings: another client's write lands between the creation of an iterator and
+	// its positioning, and becomes the first entry at or above the point the scan starts from
+	// (a new key right there, written once or twice, or deleted). The written keys are not old keys.
+	directed := 0
+	for i := 0; i < len(oldLive) && failMsg.Load() == nil && i < 12; i++ {
+		lo := append([]byte(oldLive[i]), '!')
+		wk := append(append([]byte{}, lo...), 'w')
+		if isOld(lo) || isOld(wk) {
+			continue
+		}
+		var hi []byte
+		if i+3 < len(oldLive) {
+			hi = append([]byte(oldLive[i+3]), '!')
+		}
+		write := func(n int) {
+			switch n % 3 {
+			case 0:
+				e.Put(wk, []byte("w1"))
+			case 1:
+				e.Put(wk, []byte("w1"))
+				e.Put(wk, []byte("w2"))
+			case 2:
+				e.Put(wk, []byte("w1"))
+				e.Delete(wk)
+			}
+		}
+		if it, err := e.GetRangeIterator(lo, hi); err == nil {
+			write(i)
+			total += checkScan("range scan positioned after a write by another client", it, lo, hi)
+		}
+		if it, err := e.GetIterator(); err == nil {
+			write(i + 1)
+			seekFrom = lo
+			total += checkScan("scan from Seek after a write by another client", it, nil, nil)
+			seekFrom = nil
+		}
+		if tx, err := e.BeginTransaction(true); err == nil {
+			it := tx.NewRangeIterator(lo, hi)
+			// a read-only transaction holds the read lock: plain writes do not take it
+			write(i + 2)
+			total += checkScan("transaction range scan positioned after a write by another client", it, lo, hi)
+			tx.Rollback()
+		}
+		directed++
+	}
 	out("C conc")
 	if m := failMsg.Load(); m != nil {
 		out("ORACLE FAIL " + m.(string))
@@ -993,7 +1047,7 @@ func runC05Conc(c *Case, out func(string)) {
 	if nWrites.Load() > 20 && len(oldLive) >= 3 {
 		nt = 1
 	}
-	out(fmt.Sprintf("META conc=1 old_live=%d writes_during=%d entries_scanned=%d nontrivial=%d", len(oldLive), nWrites.Load(), total, nt))
+	out(fmt.Sprintf("META conc=1 old_live=%d writes_during=%d directed_interleavings=%d entries_scanned=%d nontrivial=%d", len(oldLive), nWrites.Load(), directed, total, nt))
 }
 
 // ---- generators ----
